@@ -16,8 +16,10 @@ Any2(S, T) == {[kind |-> "any", members |-> <<x, y>>] : x \in S, y \in T}
 AnyOdd == {[kind |-> "any", members |-> <<>>]} \cup {[kind |-> "any", members |-> <<x>>] : x \in Leaves}
             \cup {[kind |-> "any", members |-> <<x, y, z>>] : x \in Leaves, y \in Leaves, z \in Leaves}
 CONSTANT Depth
+Deep2 == Leaves \cup Any2(Leaves, Leaves) \cup AnyOdd \cup Any2(Leaves, Any2(Leaves, Leaves)) \cup Any2(Any2(Leaves, Leaves), Leaves)
 Trees == IF Depth = 0 THEN Leaves ELSE IF Depth = 1 THEN Leaves \cup Any2(Leaves, Leaves) \cup AnyOdd
-         ELSE Leaves \cup Any2(Leaves, Leaves) \cup AnyOdd \cup Any2(Leaves, Any2(Leaves, Leaves)) \cup Any2(Any2(Leaves, Leaves), Leaves)
+         ELSE IF Depth = 2 THEN Deep2
+         ELSE Deep2 \cup Any2(Any2(Leaves, Leaves), Any2(Leaves, Leaves))
 Ops == {[op |-> "Get", names |-> {"a"}], [op |-> "Comp", names |-> {"a"}], [op |-> "Put", names |-> {"a"}],
         [op |-> "Fm", names |-> {"a"}], [op |-> "Fm", names |-> {"a", "b"}], [op |-> "Fm", names |-> {}]}
 
